@@ -83,7 +83,7 @@ impl Monitor for Mon {
 }
 
 #[derive(Clone)]
-enum Sweep {
+pub enum Sweep {
     Mac(MacSpec),
     Ja { dl_settings: u8, rx_delay: u8, cflist: Option<Vec<u8>> },
 }
@@ -97,7 +97,7 @@ fn freq_classes(region: RegionId) -> Vec<u32> {
     vec![0, (lo + (hi - lo) / 2) / 100, lo / 100, hi / 100, lo / 100 - 1, hi / 100 + 1, 1, 0xFF_FFFF]
 }
 
-fn sweep_items(region: RegionId) -> Vec<Sweep> {
+pub fn sweep_items(region: RegionId) -> Vec<Sweep> {
     let mut v = Vec::new();
     let fcs = freq_classes(region);
     // LinkADRReq: every DR x TXPower; every ChMaskCntl x mask pattern; NbTrans
@@ -188,7 +188,7 @@ fn sweep_items(region: RegionId) -> Vec<Sweep> {
 
 const FES: [Frontend; 3] = [Frontend::Nb, Frontend::Async, Frontend::AsyncC];
 
-fn sweep_case(run: u64) -> Option<MacCase> {
+pub fn sweep_case(run: u64) -> Option<MacCase> {
     // the item list length depends on nothing but the region's band (same count for every region)
     let n_items = sweep_items(RegionId::EU868).len() as u64;
     let total = n_items * 9 * 3;
